@@ -195,7 +195,7 @@ fn call(b: Builder, m: &mut Model, slot: usize, c: usize) -> Builder {
         }
         _ => {
             // seeds 6000..: custom types whose low half-word is a specified tag number
-            let typ = if (6000..6008).contains(&c) { [0x0001_0003u32, 0x8000_0000, 0xABCD_0015, 0x0001_0000, 0xFFFF_0001, 0x0100_0008, 0x0002_0011, 0xFFFF_FFFF][c - 6000] } else if c >= 2000 { 0x2000 } else { 0x1337 + s };
+            let typ = if (6000..6014).contains(&c) { [0x0001_0003u32, 0x8000_0000, 0xABCD_0015, 0x0001_0000, 0xFFFF_0001, 0x0100_0008, 0x0002_0011, 0xFFFF_FFFF, 22, 23, 31, 32, 50, 0x1332][c - 6000] } else if c >= 2000 { 0x2000 } else { 0x1337 + s };
             let t = new_boxed::<DynSizedStructure<TagHeader>>(TagHeader::new(TagType::Custom(typ), 0), &[&blob]);
             m.put(slot, supplied(&*t));
             b.add_custom_tag(t)
@@ -482,9 +482,9 @@ fn run(ctx: &mut Ctx) {
             });
         }
     }
-    ctx.bound("custom_type_numbers", "custom tags whose type number has a specified tag number (0..=21) in its low half-word and other bits above it (8 values incl. 0x00010003, 0x80000000, 0xFFFFFFFF): alone, two of them, and between other tags");
-    for v in 0..8usize {
-        for prog in [vec![(21usize, 6000 + v)], vec![(21, 6000 + v), (21, 6000 + (v + 1) % 8)], vec![(2, 1), (21, 6000 + v), (0, 1)]] {
+    ctx.bound("custom_type_numbers", "custom tags whose type number has a specified tag number (0..=21) in its low half-word and other bits above it (8 values incl. 0x00010003, 0x80000000, 0xFFFFFFFF) and small custom numbers (22, 23, 31, 32, 50, 0x1332): alone, two different ones, the same one twice, and between other tags");
+    for v in 0..14usize {
+        for prog in [vec![(21usize, 6000 + v)], vec![(21, 6000 + v), (21, 6000 + (v + 1) % 14)], vec![(21, 6000 + v), (21, 6000 + v)], vec![(15, 1), (21, 6000 + v), (21, 6000 + v), (17, 0)], vec![(2, 1), (21, 6000 + v), (0, 1)]] {
             let describe = || J::obj().set("part", "custom_type_numbers").set("calls", J::Arr(prog.iter().map(|(s, c)| J::from(format!("{}#{}", SLOT_NAMES[*s], c))).collect()));
             ctx.leaf(describe, |ctx| {
                 ctx.state_direct();
